@@ -1,7 +1,8 @@
 (* Correspondence checker for C16.  A case is (history, one observation per executed operation,
    destinations that are up: they accept connections and keep them).
    Observation after an operation (taken when the real hub is idle and the connections have settled,
-   at most 2 s): the hub's rule table, its client table, the destination URLs that have an open
+   at most 2 s): the hub's rule table, its client table, the clients registered with the messages
+   hub (by destination URL), the destination URLs that have an open
    websocket connection at the recording servers (one entry per connection), and - for a broadcast -
    the destination URLs the tagged message arrived at.
    Projection: the model fixes tables exactly; connections and deliveries are compared as refinement -
@@ -12,6 +13,7 @@ From Relay Require Import Base.Prelude Base.AList Model.Rwc.
 Record obs := mkobs {
   o_rules : list (N * N * N);     (* id, stream, destination; sorted by id *)
   o_clients : list (N * N);       (* id, destination *)
+  o_members : list N;             (* destination of every client registered with the messages hub *)
   o_open : list N;
   o_recv : list N }.
 
@@ -35,6 +37,20 @@ Definition clients_ok (s : st) (l : list (N * N)) : bool :=
                     | None => false
                     end) l.
 
+(* registered with the messages hub: the same destinations, with the same multiplicity *)
+Fixpoint remove1 (x : N) (l : list N) : option (list N) :=
+  match l with
+  | [] => None
+  | y :: r => if N.eqb x y then Some r else match remove1 x r with Some r' => Some (y :: r') | None => None end
+  end.
+Fixpoint perm_eqb (a b : list N) : bool :=
+  match a with
+  | [] => match b with [] => true | _ => false end
+  | x :: r => match remove1 x b with Some b' => perm_eqb r b' | None => false end
+  end.
+Definition members_ok (s : st) (l : list N) : bool :=
+  perm_eqb l (map (fun c => rdest (crule c)) (members s)).
+
 Definition live_dests (s : st) : list N := map (fun e => rdest (crule (snd e))) (clients s).
 
 Definition open_ok (s : st) (reliable : list N) (l : list N) : bool :=
@@ -50,7 +66,7 @@ Fixpoint walk (s : st) (ops : list op) (bs : list obs) (reliable : list N) : boo
   match ops, bs with
   | o :: r, b :: br =>
       let '(s1, _, out) := step s o in
-      rules_ok s1 (o_rules b) && clients_ok s1 (o_clients b) && open_ok s1 reliable (o_open b) &&
+      rules_ok s1 (o_rules b) && clients_ok s1 (o_clients b) && members_ok s1 (o_members b) && open_ok s1 reliable (o_open b) &&
       recv_ok out reliable (o_recv b) && walk s1 r br reliable
   | _, [] => true
   | [], _ :: _ => false
